@@ -203,10 +203,17 @@ CHECKS = {
          "monad, under the session invariant): a line read alone is the line in a document; `ignore` skips statement kinds; "
          "the complement sequence is the reverse WC complement; the domains field is exact for any well-shaped document in any "
          "order; per statement: strands, reaction type / filing / rate / units, kernel complex name / class / concentration; "
-         "no interpreter-level fault; failed reads keep held objects; configured classes. Partial: complex sequence and "
-         "structure, composite expansion, macrostate and reaction members are compared with the generator's expected system "
-         "through the whole-reader correspondence (text -> Gallina PEG parse -> reader model vs read_pil) on generated systems "
-         "in every notation, order and layout, on all <=3-statement documents over a pool, and on the C16 fault streams.",
+         "no interpreter-level fault; failed reads keep held objects; configured classes; and the assembled statement: every "
+         "consistent system (domains with lengths or sequences, strands, complexes in kernel notation incl. composite names and "
+         "their complements and concentrations, strand notation, macrostates, reactions of every type), in ANY "
+         "declaration-respecting order, read in a fresh session, is never refused, every statement has built exactly its "
+         "objects (complexes with exactly the denoted sequence/structure and the minimal rotation as canonical form, members "
+         "are the identical registered singletons), the keys of every dictionary are exactly the declared names and `other` "
+         "is the list of the remaining lines; consistency is a computation evaluated to True on every generated system. "
+         "Partial: sessions that already hold objects and `ignore` are not in the assembled statement; the sorted view of the "
+         "dictionary is compared with the generator's expected system through the whole-reader correspondence (text -> "
+         "Gallina PEG parse -> reader model vs read_pil) on generated systems in every notation, order and layout, on all "
+         "<=3-statement documents over a pool, and on the C16 fault streams.",
     design="DESIGN.md 7 (C14)", technique="Coq proof (Hoare logic over a state/exception monad on the registry model; regenerated tables) + model/implementation correspondence of the whole reader"),
  "C15": dict(
     text="Proof: frame theorem per class (an operation on class A leaves registries and own ID of every other class untouched, "
